@@ -198,10 +198,10 @@ func (p *StreamPool) getConnection(k key, end bool, ts time.Time, tcp *layers.TC
 	conn, half, rev = p.newConnection(k, s, ts)
 	conn2, half2, rev2 := p.getHalf(k)
 	if conn2 != nil {
-		if conn2.key != k {
-			panic("FIXME: other dir added in the meantime...")
-		}
-		// FIXME: delete s ?
+		// Another assembler created the connection in the meantime, for this
+		// direction or for the opposite one: getHalf has already oriented the
+		// two halves for k, so use the existing entry and recycle ours.
+		p.free = append(p.free, conn)
 		return conn2, half2, rev2
 	}
 	p.conns[k] = conn
